@@ -2191,6 +2191,11 @@ impl Element {
             model.remove_file(file);
             return Ok(());
         }
+        // the SHORT-NAME identifies its parent element in every file that contains the parent, so it can't be removed
+        // from only some of these files; it follows its parent
+        if self.element_name() == ElementName::ShortName && self.parent()?.is_some_and(|p| p.element_type().is_named()) {
+            return Err(AutosarDataError::ShortNameRemovalForbidden);
+        }
         self.remove_from_file_internal(file)
     }
 
